@@ -257,7 +257,7 @@ func vxDrawValue(t *rapid.T, ty *cqlspec.Type, nullable bool, proto int) cqlspec
 	case cqlspec.Blob:
 		if rapid.IntRange(0, 60).Draw(t, "bigblob") == 0 {
 			// around the 16-bit length boundaries of the v1-2 collection framing
-			n := rapid.SampledFrom([]int{255, 256, 32767, 32768, 40000, 65535}).Draw(t, "biglen")
+			n := rapid.SampledFrom([]int{255, 256, 32767, 32768, 40000, 65535, 65536, 65539, 70000}).Draw(t, "biglen")
 			b := make([]byte, n)
 			b[0], b[n-1] = rapid.Byte().Draw(t, "b0"), rapid.Byte().Draw(t, "bn")
 			return cqlspec.BytesValue(b)
@@ -356,7 +356,7 @@ func vxDrawValue(t *rapid.T, ty *cqlspec.Type, nullable bool, proto int) cqlspec
 		n := rapid.IntRange(0, 4).Draw(t, "n")
 		if ty.Kind == cqlspec.List && ty.Elems[0].Kind == cqlspec.Tinyint && rapid.IntRange(0, 50).Draw(t, "manyelems") == 0 {
 			// element counts around the 16-bit boundaries
-			m := rapid.SampledFrom([]int{255, 256, 32767, 32768, 65535}).Draw(t, "count")
+			m := rapid.SampledFrom([]int{255, 256, 32767, 32768, 65535, 65536, 65539}).Draw(t, "count")
 			out := cqlspec.Value{Elems: make([]cqlspec.Value, m)}
 			for i := range out.Elems {
 				out.Elems[i] = cqlspec.I64Value(int64(int8(i)))
@@ -760,6 +760,11 @@ func vxPick(ty *cqlspec.Type, vs []cqlspec.Value, ch *vxCh, role int, key bool) 
 			}
 			ft := vxPick(et, col, ch, role, false)
 			fields = append(fields, reflect.StructField{Name: "U" + strconv.Itoa(i), Type: ft, Tag: reflect.StructTag(`cql:"` + ty.Names[i] + `"`)})
+		}
+		if role == vxDst && len(fields) > 1 && ch.next(3) == 0 {
+			// a destination struct need not declare every field of the type: the others are skipped
+			drop := ch.next(len(fields))
+			fields = append(fields[:drop:drop], fields[drop+1:]...)
 		}
 		base = reflect.StructOf(fields)
 	default:
@@ -1295,7 +1300,11 @@ func vxCompare(ty *cqlspec.Type, want cqlspec.Value, rv reflect.Value, path stri
 			return nil
 		case reflect.Struct:
 			for i, e := range want.Elems {
-				if err := vxCompare(ty.Elems[i], e, rv.Field(i), path+"."+ty.Names[i]); err != nil {
+				f := rv.FieldByName("U" + strconv.Itoa(i))
+				if !f.IsValid() {
+					continue // the destination does not declare this field
+				}
+				if err := vxCompare(ty.Elems[i], e, f, path+"."+ty.Names[i]); err != nil {
 					return err
 				}
 			}
